@@ -706,6 +706,11 @@ for _orb in ("elliptic", "hyperbolic"):
         """inclination from h, eccentric anomaly / Kepler's equation, and the defining sums of the longitudes
         (pomega = Omega +- omega, theta = Omega +- (omega + f), l = pomega +- M; lower signs for retrograde orbits)."""
         G, p, prim, errp, d, w = _inverse_inputs(v)
+        # the particle belongs to a simulation: its time is the reference of the pericentre passage T
+        simo, simp_ = v.struct_obj("struct reb_simulation", "sim_of_p")
+        t_sim = v.real("t_sim")
+        simo.t = t_sim
+        p.sim = simp_
         D = _no_error(v, G, p, prim, d)
         mu = G * (p.m + prim.m)
         v.assume(_dot(w, w) * D != 2 * mu)                                     # not parabolic
@@ -739,6 +744,14 @@ for _orb in ("elliptic", "hyperbolic"):
                          ("theta", raw["theta"] == o.Omega + sgn * (raw["omega"] + raw["f"])),
                          ("l", z3.Implies(o.e > R(MIN_ECC), raw["l"] == o.pomega + sgn * raw["M"]))):
             generalize(v, no_hyps(v.prove(nm, fact, order=("z3",))), rets)
+        # --- time of pericentre passage: M = |n| (t - T) with the UNREDUCED mean anomaly, for bound and unbound orbits alike
+        # (t is the time of the simulation the particle belongs to; |n| because n carries the sign of a)
+        absn = z3.If(o.n >= 0, o.n, -o.n)
+        for nm_, cond_, sg_ in (("mean_motion_positive", o.n > 0, 1), ("mean_motion_negative", o.n < 0, -1)):
+            # generalised over the atoms o.n is built from (n = a/|a| * sqrt(|mu/a^3|)), so that |n| inside T is rewritten consistently
+            ysq_ = [t_ for t_ in _find_apps(o.n, "m_sqrt") if t_.get_id() not in {x_.get_id() for x_ in _find_apps(o.a, "m_sqrt")}]
+            generalize(v, no_hyps(v.prove("T.pericentre_passage." + nm_, z3.Implies(cond_, sg_ * o.n * (t_sim - o.T) == raw["M"]),
+                                          order=("z3",))), [raw["M"], t_sim] + ysq_[:1] + [o.a])
         # --- eccentric anomaly and Kepler's equation
         cut(v, "a_nonzero", o.a != 0, order=("z3",))
         focus(v.eng.obligations[-1])
